@@ -431,7 +431,7 @@ func init() {
 	register(&Prop{
 		ID: "C15", Level: "exploration",
 		Technique: "exhaustive small-size enumeration plus chunk-boundary sizes, every buffer split, every block/chunk composition, every truncation and byte flip of small streams, against an independent Hadoop block-stream reader and an independent snappy decoder",
-		Rule: "(a) payload sizes 0..64 and {chunk-1, chunk, chunk+1, 2chunk-1, 2chunk, 2chunk+1, 3chunk+5} x 3 content classes, as one buffer, two buffers cut at every position (small) or at chunk edges (large), three buffers for sizes <=16: client compress -> independent reader = input = client decompress; (b) conforming server streams from an independent writer (literal-only snappy and library snappy): every composition into <=3 blocks x 1..3 chunks; (c) every truncation and 8 (thorough 255) substitute values at every byte of small streams: no panic, and any data returned equals what the independent reader returns. Non-trivial = non-empty payload / any damaged stream.",
+		Rule: "(a) payload sizes 0..64 and {chunk-1, chunk, chunk+1, 2chunk-1, 2chunk, 2chunk+1, 3chunk+5} x 3 content classes, as one buffer, two buffers cut at every position (small) or at chunk edges (large), three buffers for sizes <=16: client compress -> independent reader = input = client decompress; (b) conforming server streams from an independent writer (literal-only snappy and library snappy): every composition into <=3 blocks x 1..3 chunks; (c) every truncation and 8 (thorough 255) substitute values at every byte of small streams: no panic, and any data returned equals what the independent reader returns. Non-trivial = non-empty payload / any damaged stream. (a2) every size 65..9000 (thorough 70000) x {compressible, incompressible} x state of the client's buffer pool {cold, warm from the previous round, holding only a tiny buffer}, each in its own controlled execution with a deterministic pool.",
 		Assumptions: []string{"raw snappy carries no checksum: a flipped literal byte is undetectable by any conforming reader, so the oracle for corruption is differential", "chunk = 218421 bytes (Hadoop SnappyCodec buffer)"},
 		Quick:       90 * time.Second, Thorough: 10 * time.Minute,
 		Direct: c15Direct,
